@@ -393,11 +393,12 @@ func (c *chunkReader) Read(p []byte) (int, error) {
 }
 
 type scriptResult struct {
-	inmSeen    []string
-	wrapped    bool // the writer handed to the next handler is the encode responseWriter
-	unreal     bool
-	writeFault string
-	expected   []byte // concatenation of everything the handler wrote
+	inmSeen     []string
+	wrapped     bool // the writer handed to the next handler is the encode responseWriter
+	unreal      bool
+	writeFault  string
+	hijackFault string
+	expected    []byte // concatenation of everything the handler wrote
 }
 
 func expectedBody(ops []op) []byte {
@@ -490,6 +491,10 @@ func (k *kase) runRecorded(ops []op) (*rec, *scriptResult, error) {
 		res.inmSeen = req.Header.Values("If-None-Match")
 		res.wrapped = fmt.Sprintf("%T", w) == "*encode.responseWriter"
 		replay(ops, w, res)
+		// Unwrap pass-through: a handler behind encode can still take the connection (WebSocket upgrade)
+		if _, _, herr := http.NewResponseController(w).Hijack(); herr != errRecHijack || r.hijacks != 1 {
+			res.hijackFault = fmt.Sprintf("ResponseController.Hijack() through %T: error %v, the wrapped writer was asked %d time(s)", w, herr, r.hijacks)
+		}
 		return nil
 	})
 	if err := h.ServeHTTP(w, k.request(), next); err != nil {
